@@ -23,6 +23,7 @@ EXPLANATION = (
     "summaries (mutates parameter i, returns fresh / parameter / view) are propagated over resolved calls to a fixpoint and "
     "judged at the call site where the argument's ownership is known. Unknown origins are reported as unresolved, never failed."
     " Added since: elements of locally built containers carry the origins of what was stored into them; `type(x).__name__ == 'Tensor'` narrows like isinstance."
+    " Round 4: return summaries are parametric - a helper that returns a field / view / element chain rooted at one of its parameters is summarised as that chain with a hole; the call site substitutes the origins of the actual argument and narrows the class tag of the field by what it knows about the argument's class."
 )
 ASSUMPTIONS = [
     "numpy/torch functions not listed as in-place or view-returning allocate their result (library semantics are trusted)",
